@@ -274,3 +274,100 @@ Proof.
   destruct t as [|t]; [reflexivity|]. cbn [nth]. rewrite IH by lia.
   rewrite !skipn_add. reflexivity.
 Qed.
+
+(* ---- every output bit of a fault-tolerant run reads a uniform of its own ----
+   epos: stream position read for qubit i of the error of step t; fpos: position read for syndrome bit j of step t.
+   The positions are pairwise different, so with independent uniforms the qubits of all steps and the flips of all
+   steps are mutually independent (a shared or replayed position would make two outputs functions of one uniform). *)
+Definition epos (n m t i : nat) : nat := (t * (n + m) + i)%nat.
+Definition fpos (n m t j : nat) : nat := (t * (n + m) + n + j)%nat.
+
+Lemma nth_skipn_add {A} (l : list A) (x : A) : forall a i, nth i (skipn a l) x = nth (a + i) l x.
+Proof.
+  induction l as [|y l IH]; intros a i.
+  - rewrite skipn_nil. destruct i, (a + 0)%nat, a; cbn; try reflexivity; now destruct (a + S i)%nat.
+  - destruct a as [|a]; [reflexivity|]. cbn. apply IH.
+Qed.
+Lemma nth_firstn_lt {A} (x : A) : forall (l : list A) k i, (i < k)%nat -> nth i (firstn k l) x = nth i l x.
+Proof.
+  induction l as [|y l IH]; intros k i Hi.
+  - now rewrite firstn_nil.
+  - destruct k as [|k]; [lia|]. destruct i as [|i]; [reflexivity|]. cbn. apply IH. lia.
+Qed.
+Lemma block_le (a b w x : nat) : (a < b)%nat -> (x <= w)%nat -> (a * w + x <= b * w)%nat.
+Proof. intros Hab Hx. assert ((S a) * w <= b * w)%nat by (apply Nat.mul_le_mono_r; lia). cbn in H. lia. Qed.
+
+Theorem epos_fpos_distinct n m s t i j : (i < n)%nat -> (j < m)%nat -> epos n m s i <> fpos n m t j.
+Proof.
+  unfold epos, fpos. intros Hi Hj E.
+  destruct (Nat.lt_trichotomy s t) as [H|[H|H]].
+  - pose proof (block_le s t (n + m) (S i) H ltac:(lia)). lia.
+  - subst t. lia.
+  - pose proof (block_le t s (n + m) (n + S j) H ltac:(lia)). lia.
+Qed.
+Theorem epos_injective n m s t i j : (i < n)%nat -> (j < n)%nat -> epos n m s i = epos n m t j -> s = t /\ i = j.
+Proof.
+  unfold epos. intros Hi Hj E.
+  destruct (Nat.lt_trichotomy s t) as [H|[H|H]].
+  - pose proof (block_le s t (n + m) (S i) H ltac:(lia)). lia.
+  - subst t. lia.
+  - pose proof (block_le t s (n + m) (S j) H ltac:(lia)). lia.
+Qed.
+Theorem fpos_injective n m s t i j : (i < m)%nat -> (j < m)%nat -> fpos n m s i = fpos n m t j -> s = t /\ i = j.
+Proof.
+  unfold fpos. intros Hi Hj E.
+  destruct (Nat.lt_trichotomy s t) as [H|[H|H]].
+  - pose proof (block_le s t (n + m) (n + S i) H ltac:(lia)). lia.
+  - subst t. lia.
+  - pose proof (block_le t s (n + m) (n + S j) H ltac:(lia)). lia.
+Qed.
+
+Lemma window_length {A} (l : list A) a k : (a + k <= length l)%nat -> length (firstn k (skipn a l)) = k.
+Proof. intros H. rewrite firstn_length, skipn_length. lia. Qed.
+
+(* qubit i of the error of step t is the inverse-cdf image of the uniform at epos t i, X part in bit i, Z part in bit n+i *)
+Theorem run_stream_error_at T n m d q : ~ q == 0 -> forall us t i, (T * (n + m) <= length us)%nat -> (t < T)%nat -> (i < n)%nat ->
+  let e := fst (nth t (run_stream T n m d q us) ([], [])) in
+  let l := letter_of (choice d (nth (epos n m t i) us 0)) in
+  nth i e false = xbit l /\ nth (n + i) e false = zbit l.
+Proof.
+  intros Hq us t i Hlen Ht Hi. cbv zeta. rewrite (run_stream_nth T n m d q Hq us t Ht). cbn [fst].
+  pose proof (block_le t T (n + m) n Ht ltac:(lia)) as Hb.
+  set (w := firstn n (skipn (t * (n + m)) us)).
+  assert (Hw : length w = n) by (apply window_length; lia).
+  assert (Hiw : (i < length w)%nat) by lia.
+  destruct (generate_columns d w i Hiw) as [A B]. rewrite Hw in B. rewrite A, B.
+  rewrite (gen_letters_local d w i Hiw). unfold w. rewrite nth_firstn_lt by exact Hi. rewrite nth_skipn_add.
+  unfold epos. split; reflexivity.
+Qed.
+(* syndrome bit j of step t flips iff the uniform at fpos t j is at least 1 - q *)
+Theorem run_stream_flip_at T n m d q : ~ q == 0 -> forall us t j, (T * (n + m) <= length us)%nat -> (t < T)%nat -> (j < m)%nat ->
+  nth j (snd (nth t (run_stream T n m d q us) ([], []))) false = flip q (nth (fpos n m t j) us 0).
+Proof.
+  intros Hq us t j Hlen Ht Hj. rewrite (run_stream_nth T n m d q Hq us t Ht). cbn [snd].
+  pose proof (block_le t T (n + m) (n + m) Ht ltac:(lia)) as Hb.
+  set (w := firstn m (skipn n (skipn (t * (n + m)) us))).
+  assert (Hw : length w = m).
+  { unfold w. rewrite firstn_length, !skipn_length. lia. }
+  rewrite (flips_local q w j ltac:(lia)). unfold w. rewrite nth_firstn_lt by exact Hj. rewrite !nth_skipn_add.
+  unfold fpos. f_equal. f_equal. lia.
+Qed.
+(* consequently two streams that agree at that one position give the same bit, whatever they hold elsewhere -
+   in particular at all the positions read for the errors and for the other flips *)
+Theorem run_stream_flip_own_uniform T n m d q : ~ q == 0 -> forall us us' t j,
+  (T * (n + m) <= length us)%nat -> (T * (n + m) <= length us')%nat -> (t < T)%nat -> (j < m)%nat ->
+  nth (fpos n m t j) us 0 = nth (fpos n m t j) us' 0 ->
+  nth j (snd (nth t (run_stream T n m d q us) ([], []))) false = nth j (snd (nth t (run_stream T n m d q us') ([], []))) false.
+Proof. intros Hq us us' t j H1 H2 Ht Hj E. rewrite !run_stream_flip_at by assumption. now rewrite E. Qed.
+Theorem run_stream_error_own_uniform T n m d q : ~ q == 0 -> forall us us' t i,
+  (T * (n + m) <= length us)%nat -> (T * (n + m) <= length us')%nat -> (t < T)%nat -> (i < n)%nat ->
+  nth (epos n m t i) us 0 = nth (epos n m t i) us' 0 ->
+  let e := fst (nth t (run_stream T n m d q us) ([], [])) in
+  let e' := fst (nth t (run_stream T n m d q us') ([], [])) in
+  nth i e false = nth i e' false /\ nth (n + i) e false = nth (n + i) e' false.
+Proof.
+  intros Hq us us' t i H1 H2 Ht Hi E. cbv zeta.
+  destruct (run_stream_error_at T n m d q Hq us t i H1 Ht Hi) as [A B].
+  destruct (run_stream_error_at T n m d q Hq us' t i H2 Ht Hi) as [A' B'].
+  rewrite A, B, A', B', E. split; reflexivity.
+Qed.
